@@ -31,6 +31,7 @@ type AdvCase struct {
 	Tg    []string `json:"tg"` // decimal numbers (uint64)
 	Pf    []string `json:"pf"`
 	Adds  int      `json:"adds,omitempty"`
+	AddsPat string `json:"addspat,omitempty"` // additions with chosen values: z = all-zero hash, a/b/c = fresh values
 	Stump *struct {
 		N     string   `json:"n"`
 		Roots []string `json:"roots"`
@@ -635,6 +636,60 @@ func (r *Runner) advTotality(l *Line) lineResult {
 					}
 				}
 			}
+			// the additions are caller-supplied hashes too: the all-zero hash and repeated values among
+			// them, with and without a true deletion
+			if wi == 1%nw {
+				type delv struct {
+					hs []Hash
+					tg []uint64
+					pf []Hash
+				}
+				dv := []delv{{}}
+				if len(exp.Leaves) > 0 {
+					// the true claim of the first live leaf with its canonical proof (from the node table)
+					nodeAt := map[RI]string{}
+					for _, nd := range exp.Nodes {
+						nodeAt[nd.RI()] = nd.Hash
+					}
+					lf := exp.Leaves[0]
+					p := RI{uint8(lf[1]), lf[2]}
+					isRoot := func(q RI) bool { return exp.N>>q.Row&1 == 1 && q.Idx == (exp.N>>(q.Row+1))<<1 }
+					var pfT []string
+					for q := p; !isRoot(q); q = (RI{q.Row + 1, q.Idx / 2}) {
+						pfT = append(pfT, nodeAt[RI{q.Row, q.Idx ^ 1}])
+					}
+					dv = append(dv, delv{[]Hash{r.sy.H(leafTerm(int(lf[0])))}, []uint64{enc(p, R)}, r.sy.Hs(pfT)})
+				}
+				for _, d := range dv {
+					for _, pat := range addPatterns {
+						adds := addsOfPattern(r.sy, pat)
+						c := &AdvCase{Mode: "c04", API: "Stump.Update", Hs: termsOf(r.sy, d.hs), Tg: numsOf(d.tg), Pf: termsOf(r.sy, d.pf), AddsPat: pat}
+						sl.desc.Store(c)
+						sl.start.Store(time.Now().UnixNano())
+						s := utreexo.Stump{Roots: append([]Hash{}, a.stump.Roots...), NumLeaves: a.stump.NumLeaves}
+						var uerr error
+						pan := protect(func() { _, uerr = s.Update(d.hs, adds, utreexo.Proof{Targets: d.tg, Proof: d.pf}) })
+						sl.start.Store(0)
+						calls.Add(1)
+						if pan != "" {
+							mu.Lock()
+							res.fails = append(res.fails, Fail{Props: []string{"C04"}, Inst: "Stump.Update", Cat: "panic", What: "panicked: " + pan, Case: c})
+							mu.Unlock()
+						} else if uerr != nil {
+							same := s.NumLeaves == a.stump.NumLeaves && len(s.Roots) == len(a.stump.Roots)
+							for k := 0; same && k < len(s.Roots); k++ {
+								same = s.Roots[k] == a.stump.Roots[k]
+							}
+							if !same {
+								mu.Lock()
+								res.fails = append(res.fails, Fail{Props: []string{"C04"}, Inst: "Stump.Update", Cat: "nonatomic",
+									What: "a rejected Stump.Update changed the stump", Exp: r.sy.Ts(a.stump.Roots), Got: r.sy.Ts(s.Roots), Case: c})
+								mu.Unlock()
+							}
+						}
+					}
+				}
+			}
 			// synthetic well-formed stumps with huge leaf counts (roots are fresh values)
 			if wi == 0 {
 				for _, nl := range []uint64{1<<31 + 5, 1<<62 + 3, 1 << 63, ^uint64(0), 1<<40 + 1<<20 + 1, 1<<63 + 1, 1<<63 + 1<<40 + 1, ^uint64(0) - 2} {
@@ -712,6 +767,22 @@ func (r *Runner) advTotality(l *Line) lineResult {
 	return res
 }
 
+// addsOfPattern: the additions a pattern stands for (z = the all-zero hash, other letters fresh values;
+// a repeated letter is a repeated value).
+func addsOfPattern(sy *Symb, pat string) []Hash {
+	var out []Hash
+	for _, ch := range pat {
+		if ch == 'z' {
+			out = append(out, zeroHash)
+		} else {
+			out = append(out, sy.H(junkTerm(600+int(ch))))
+		}
+	}
+	return out
+}
+
+var addPatterns = []string{"z", "za", "zab", "azb", "abz", "zzab", "aa", "aab", "zazb"}
+
 // replayAdvOne re-executes one stored adversarial case under a watchdog.
 func replayAdvOne(cfg Config, v *Violation) int {
 	r := NewRunner(cfg)
@@ -765,7 +836,11 @@ func replayAdvOne(cfg Config, v *Violation) int {
 			}
 			if c.API == "Stump.Update" {
 				s := utreexo.Stump{Roots: append([]Hash{}, a.stump.Roots...), NumLeaves: a.stump.NumLeaves}
-				_, e := s.Update(hs, []Hash{r.sy.H(leafTerm(int(l.Expect.N)))}, utreexo.Proof{Targets: tg, Proof: pf})
+				adds := []Hash{r.sy.H(leafTerm(int(l.Expect.N)))}
+				if c.AddsPat != "" {
+					adds = addsOfPattern(r.sy, c.AddsPat)
+				}
+				_, e := s.Update(hs, adds, utreexo.Proof{Targets: tg, Proof: pf})
 				if e != nil {
 					same := s.NumLeaves == a.stump.NumLeaves
 					for k := 0; same && k < len(s.Roots); k++ {
